@@ -72,6 +72,8 @@ func flushStats() {
 	hx.Extra("max_convergence_rounds", statConvRounds.Load())
 	hx.Extra("seq_filters_overtaking_queued_entries", statLagging.Load())
 	hx.Extra("seq_filter_calls", statSeqFilters.Load())
+	hx.Extra("seq_settling_requests", statSettles.Load())
+	hx.Extra("max_settle_rounds", statSettleRounds.Load())
 	hx.Extra("conc_filter_calls_while_producing", statConcFilters.Load())
 }
 
